@@ -23,11 +23,9 @@ THEOREMS = [
 ]
 PARTIAL = {
     'C08_mul_wallace_partial':
-        'add_mul_wallace: the product is proved for ALL widths and length <= n + m; that the final shifted adder '
-        'returns at least n + m bits (so that the length is exactly n + m) is computed for every width pair <= 6 '
-        'only. The model returns Err where the code would compact rows 0 / 1 of the reduced matrix by skipping '
-        'placeholders BETWEEN gates (a malformed result); that this never happens is computed up to 6 x 6 and '
-        'checked by the correspondence run (model Ok wherever the implementation returns), not proved for all widths',
+        'add_mul_wallace (code repaired by fixes/D27.patch): the product is proved for ALL widths and length <= n + m; '
+        'that the final shifted adder returns at least n + m bits (so that the length is exactly n + m) is computed '
+        'for every width pair <= 6 only and otherwise checked by the direct oracle on every run',
     'C08_modes_return_with_the_stated_length_upto6':
         'the all-width theorems are conditional on the model run returning Ok; that the fuel of the modelled while '
         'loops suffices and that Python-level IndexError / AssertionError paths are not taken on well-formed calls '
@@ -61,10 +59,13 @@ LEVEL_NOTE = ('Coq kernel + vm_compute; translators T1, T4; correspondence harne
               'inputs, outputs, counter - and the harness compares it line by line with the implementation state: '
               'exact netlist equality, no hashing); theorems are conditional on the model run returning Ok; the model '
               'calls the C07 / C09 models of the summation / subtraction generators, which are of the repaired code '
-              '(fixes/D5, D6, D7; none of the repaired branches is reachable from a multiplier); value clauses of the '
+              '(fixes/D5, D6, D7; none of the repaired branches is reachable from a multiplier); add_mul_wallace is modelled '
+              'as repaired by fixes/D27.patch (empty cells between gates of the two final rows are filled with a '
+              'constant-false gate instead of being skipped: the pinned code returns wrong products for n = 2, '
+              'm >= 11); value clauses of the '
               'add_sum_pow2_m1-based functions ask that the empty string is not a gate label (filter(None, .) would '
               'drop it) and the Wallace clause asks that the placeholder string "_PLACEHOLDER_STR_" is not a gate '
-              'label; where add_mul_wallace would compact non-contiguous rows the model returns Err')
+              'label')
 TECHNIQUE = ('Coq proof: generators as programs of the deep-embedded builder monad over the Circuit model; partial '
              'products as a matrix with value sum_i 2^i row_i = a * b; default mode through the C07 weighted-sum '
              'theorem plus a gap-freeness invariant and a potential argument (number of levels) on its sorted work lists; column compressors as weighted-bag '
@@ -142,11 +143,11 @@ def correspondence(ctx, model_ok):
               'circuits and random host circuits with operands drawn among arbitrary existing gates (repetitions, '
               'one label for every bit, identical operand lists, operands that are outputs of the host), both '
               'endiannesses, squares up to 12 (16) bits, empty / missing operands, generate_mul / generate_square '
-              'for every mode; (b) through the SAME Gallina functions extracted to OCaml (ExtrOcamlBasic + '
+              'for every mode, Wallace with n = 2 and m = 9..20 (D27: empty cells inside the final rows); (b) through the SAME Gallina functions extracted to OCaml (ExtrOcamlBasic + '
               'ExtrOcamlString; driver built inside the check; the driver prints the model result as text and the '
               'harness compares every line with the implementation state): the wide shapes on bare circuits - '
               'Karatsuba (both variants) at the recursion thresholds 17..21, 35, 37, 41 (thorough: 22..24, 34..42, 47, '
-              '64 and unequal widths), add_square at 47..54 (thorough: ..97), add_square_pow2_m1 at 31, 47, the '
+              '64 and unequal widths), add_square at 47..54 (thorough: ..60, 96), add_square_pow2_m1 at 31, 47, the '
               'matrix multipliers at 16 (thorough: 24, 32). non-trivial = the call added at least one gate; '
               'distinct = hash of the case')
     t0 = time.time()
@@ -156,8 +157,6 @@ def correspondence(ctx, model_ok):
     terms, lresults = [], []
     for c in small + large:
         res, _ = mc.run_impl(c)
-        if c in large:
-            pass
         call = c['call']
         ok = res[0] == 'ok'
         r.add_case(c, ok and len(res[1][1]['gates']) > len(c['host']['gates']))
